@@ -187,6 +187,27 @@ func (g *egen) literalFor(op xgen.Op, val *univ.Node) *xgen.Lit {
 		}
 		if s, ok := univ.RenderScalar(n); ok {
 			switch g.r.Intn(10) {
+			case 1: // spellings that a careless reading gets wrong
+				if n.T.K.IsInt() || n.T.K.IsUint() {
+					v := n.I
+					if n.T.K.IsUint() {
+						v = int64(n.U)
+					}
+					switch g.r.Intn(3) {
+					case 0: // congruent modulo 2^width: a different number
+						if n.T.K.Bits() < 64 {
+							return mk(strconv.FormatInt(v+(int64(1)<<uint(n.T.K.Bits())), 10))
+						}
+					case 1: // legacy octal / leading zero
+						if v >= 0 {
+							return mk("0" + strconv.FormatInt(v, 8))
+						}
+					case 2:
+						if v >= 0 {
+							return mk("0" + strconv.FormatInt(v, 10)) // base 8 reading, or invalid
+						}
+					}
+				}
 			case 0: // alternative spellings
 				if n.T.K.IsInt() && n.I >= 0 {
 					return mk("0x" + strconv.FormatInt(n.I, 16))
